@@ -211,8 +211,15 @@ def run(model, rep, tier):
     rep.ob('batched-metropolis', mod, up[0], 'deltaE_trial(%s) / update(%s)' % (', '.join(a_tr), ', '.join(a_up)), ok,
            '' if ok else 'the move applied is not the move whose energy change was evaluated', engine='siblings')
     ok = len(a_tr) == 2 and src.get(a_tr[0]) == 'self.unoccupied_set' and src.get(a_tr[1]) == 'self.occupied_set'
-    rep.ob('batched-metropolis', mod, tr[0], 'site to occupy from %s, site to vacate from %s' % (src.get(a_tr[0]), src.get(a_tr[1])),
-           ok, '' if ok else 'trial sites are drawn from the wrong sets', engine='siblings')
+    # the look-up must happen inside the move loop: every accepted move changes both sets
+    loopm = [n for n in mc.body if isinstance(n, ast.For)]
+    inside = bool(loopm) and all(any(isinstance(x, ast.Assign) and isinstance(x.targets[0], ast.Name) and x.targets[0].id == a
+                                     for x in ast.walk(loopm[0])) for a in a_tr if a.isidentifier()) and all(a.isidentifier() for a in a_tr)
+    rep.ob('batched-metropolis', mod, tr[0], 'site to occupy from %s, site to vacate from %s, looked up inside the move loop'
+           % (src.get(a_tr[0]), src.get(a_tr[1])), ok and inside,
+           '' if ok and inside else 'trial sites are not read from the (un)occupied sets at the time of the move: after an accepted move '
+                                    'the sets have changed, so a pre-computed batch applies moves to stale sites', engine='siblings')
+    _transition_predicates(model, rep, mod, ref, jit)
     acc = getattr(up[0], '_parent', None)
     while acc is not None and not isinstance(acc, ast.If):
         acc = getattr(acc, '_parent', None)
@@ -256,3 +263,95 @@ def _param_vs_start(rep, mod, pf, start):
     rep.ob('sign-agreement', mod, pf, 'MonteCarloSampler_param (initialised) and compiled start build the sets alike: %d statements'
            % len(a), ok, '' if ok else 'set/index construction differs: only in param %s ; only in start %s'
            % (sorted(a - b), sorted(b - a)), engine='siblings')
+
+
+def _eval(e, env):
+    """evaluate a boolean combination of comparisons of abstract occupancies / flags with integer constants."""
+    if isinstance(e, ast.BoolOp):
+        vals = [_eval(v, env) for v in e.values]
+        return all(vals) if isinstance(e.op, ast.And) else any(vals)
+    if isinstance(e, ast.UnaryOp) and isinstance(e.op, ast.Not):
+        return not _eval(e.operand, env)
+    if isinstance(e, ast.Compare) and len(e.ops) == 1:
+        def val(x):
+            t = unparse(x)
+            if t in env:
+                return env[t]
+            if isinstance(x, ast.Constant):
+                return x.value
+            if isinstance(x, ast.UnaryOp) and isinstance(x.op, ast.USub) and isinstance(x.operand, ast.Constant):
+                return -x.operand.value
+            raise AnalysisError('transition predicate: cannot evaluate %s' % t)
+        a, b = val(e.left), val(e.comparators[0])
+        op = e.ops[0]
+        return {ast.Eq: a == b, ast.NotEq: a != b, ast.Lt: a < b, ast.LtE: a <= b, ast.Gt: a > b, ast.GtE: a >= b}[type(op)]
+    raise AnalysisError('transition predicate: unsupported construct %s' % unparse(e))
+
+
+def _transition_predicates(model, rep, mod, ref, jit):
+    """allowed-transition predicates of the two samplers agree on the finite domain of (vacancy present?, occupancy of the
+    initial site, occupancy of the final site): values enter only through comparisons with constants."""
+    rep.rule('transition-predicate-agreement', 'reference and compiled transitions() allow exactly the same jumps on the finite occupancy domain')
+    rt, jt = ref.methods['transitions'], jit.methods['transitions']
+    # reference: inside `for n, ((i, j), dx) in enumerate(self.jumps)`: if self.vacancy < 0: if <skip>: continue
+    lp = [n for n in rt.body if isinstance(n, ast.For)]
+    if len(lp) != 1:
+        raise AnalysisError('MonteCarloSampler.transitions: jump loop not found')
+    tgt = lp[0].target
+    pair = [t for t in ast.walk(tgt) if isinstance(t, ast.Tuple) and len(t.elts) == 2 and all(isinstance(x, ast.Name) for x in t.elts)]
+    if not pair:
+        raise AnalysisError('MonteCarloSampler.transitions: endpoint pair not found')
+    ri, rj = pair[0].elts[0].id, pair[0].elts[1].id
+    guards = []  # list of (outer condition or None, skip condition)
+    for st in lp[0].body:
+        if isinstance(st, ast.If):
+            if any(isinstance(x, ast.Continue) for x in st.body):
+                guards.append((None, st.test))
+            else:
+                for s2 in st.body:
+                    if isinstance(s2, ast.If) and any(isinstance(x, ast.Continue) for x in s2.body):
+                        guards.append((st.test, s2.test))
+    # compiled: for n in range(self.Njumps): if <allowed>: ... else: inf
+    jl = [n for n in jt.body if isinstance(n, ast.For)]
+    if len(jl) != 1:
+        raise AnalysisError('MonteCarloSampler_jit.transitions: jump loop not found')
+    nvar = unparse(jl[0].target)
+    ifs = [s for s in jl[0].body if isinstance(s, ast.If)]
+    conts = [s for s in ifs if any(isinstance(x, ast.Continue) for x in s.body)]
+    if len(ifs) == 1 and ifs[0].orelse and not conts:
+        jit_allowed = lambda env: _eval(ifs[0].test, env)
+        jnode = ifs[0]
+    elif conts:
+        jit_allowed = lambda env: not any(_eval(c.test, env) for c in conts)
+        jnode = conts[0]
+    else:
+        raise AnalysisError('MonteCarloSampler_jit.transitions: allowed/forbidden test not recognised')
+    # local aliases i, j = self.jump_ij[n, 0], self.jump_ij[n, 1]
+    alias = {}
+    for s_ in jl[0].body:
+        if isinstance(s_, ast.Assign) and isinstance(s_.targets[0], ast.Tuple) and isinstance(s_.value, ast.Tuple):
+            for t, v in zip(s_.targets[0].elts, s_.value.elts):
+                alias[unparse(t)] = unparse(v)
+    bad = []
+    domain = [(False, 0, 0), (False, 0, 1), (False, 1, 0), (False, 1, 1), (True, -1, 0), (True, -1, 1)]
+    for vac, oi, oj in domain:
+        renv = {'self.vacancy': 0 if vac else -1, 'self.occ[%s]' % ri: oi, 'self.occ[%s]' % rj: oj}
+        ref_allowed = not any((_eval(o, renv) if o is not None else True) and _eval(c, renv) for o, c in guards)
+        jenv = {}
+        for a, b in (('0', oi), ('1', oj)):
+            jenv['self.occ[self.jump_ij[%s][%s]]' % (nvar, a)] = b
+            jenv['self.occ[self.jump_ij[%s, %s]]' % (nvar, a)] = b
+        for k, v in alias.items():
+            for a, b in (('0', oi), ('1', oj)):
+                if v in ('self.jump_ij[%s, %s]' % (nvar, a), 'self.jump_ij[%s][%s]' % (nvar, a)):
+                    jenv['self.occ[%s]' % k] = b
+        if ref_allowed != jit_allowed(jenv):
+            bad.append('vacancy=%s occ(initial)=%d occ(final)=%d: reference %s, compiled %s'
+                       % (vac, oi, oj, 'allows' if ref_allowed else 'forbids', 'allows' if not ref_allowed else 'forbids'))
+    rep.ob('transition-predicate-agreement', mod, jnode, 'allowed-jump predicates agree on %d abstract cases' % len(domain), not bad,
+           '' if not bad else '; '.join(bad), engine='siblings', qual='MonteCarloSampler_jit.transitions')
+    # forbidden jumps are marked infinite
+    inf = [n for n in ast.walk(jt) if isinstance(n, ast.Assign) and unparse(n.targets[0]).startswith('self.jump_Q[') and unparse(n.value) in ('np.inf', 'np.Inf', 'float("inf")', "float('inf')")]
+    rep.ob('transition-predicate-agreement', mod, jt, 'forbidden jumps get an infinite barrier', bool(inf),
+           '' if inf else 'forbidden transitions are not marked infinite (a stale barrier from an earlier call is reported)', engine='siblings',
+           qual='MonteCarloSampler_jit.transitions')
